@@ -53,6 +53,7 @@ type Contract struct {
 	Line         int
 	Asserts      []Clause
 	Defines      []Clause // iface: definitional postconditions (assumed at calls, not checked on implementers)
+	Establishes  bool     // rep-check function: the invariant of the receiver's type is NOT assumed
 	Decreases    *Clause  // recursion measure
 	SplitExpr    *Clause  // case split: the function is verified once per value
 	SplitVals    []string
@@ -68,7 +69,7 @@ var clauseKW = map[string]bool{
 	"func": true, "iface": true, "type": true, "lemma": true, "property": true, "requires": true, "ensures": true,
 	"panics_if": true, "panics_only_if": true, "panics_iff": true, "maypanic": true, "modifies": true,
 	"let": true, "loop": true, "invariant": true, "decreases": true, "inline": true, "trusted": true,
-	"recover": true, "bounded_view": true, "end": true, "defines": true, "view": true, "split": true,
+	"recover": true, "bounded_view": true, "end": true, "defines": true, "view": true, "split": true, "establishes": true,
 }
 
 type ContractSet struct {
@@ -232,6 +233,8 @@ func parseContractText(text, path, pkg string, cs *ContractSet) error {
 				for _, v := range strings.Split(rc.text[i+4:], ",") {
 					c.SplitVals = append(c.SplitVals, strings.TrimSpace(v))
 				}
+			case "establishes":
+				c.Establishes = true
 			case "defines":
 				c.Defines = append(c.Defines, cl)
 			case "view":
